@@ -262,14 +262,16 @@ def write_evidence(prop, tier, seed, mod, suites, out, confirmed, wall, build_se
         "discharged": sum(q["nprops"] - len(q["failures"]) for q in decided) + len([o for o in out.e2 if o["status"] == "unsat"]),
         "queries": [{"harness": q["harness"], "site": q["site"], "verdict": q["status"], "expect": q["expect"],
                      "bounds": q["bounds"], "cbmc_properties": q["nprops"], "failed": [f["desc"][:120] for f in q["failures"]][:6],
-                     "solver": q.get("solver"), "solver_secs": q.get("sat_secs"), "cbmc_wall_secs": q.get("cbmc_secs"),
+                     "solver": q.get("solver"), "solver_secs": q.get("sat_secs"), "decision_procedure_secs": q.get("dp_secs"), "symex_secs": q.get("symex_secs"),
+                     "sat_vars_clauses": q.get("vars_clauses"), "cbmc_wall_secs": q.get("cbmc_secs"),
                      "error": q.get("error")} for q in qs],
         "smt_obligations": [{k: o.get(k) for k in ("name", "status", "solver", "secs", "desc", "error")} for o in out.e2],
         "functions_encoded": sorted({f for s in suites for f in s.functions} | set(getattr(mod, "E2_FUNCTIONS", []))),
         "stubs": sorted({f for s in suites for f in s.stubs}),
         "vacuity_twins": [{"harness": q["harness"], "violated_as_required": q["status"] == "fail"} for q in qs if q["expect"] == "fail"],
         "kani_codegen_secs": round(build_secs, 1),
-        "solver_secs_total": round(sum((q.get("sat_secs") or 0) for q in qs) + sum((o.get("secs") or 0) for o in out.e2), 2),
+        "solver_secs_total": round(sum((q.get("dp_secs") or q.get("sat_secs") or 0) for q in qs) + sum((o.get("secs") or 0) for o in out.e2), 2),
+        "symex_secs_total": round(sum((q.get("symex_secs") or 0) for q in qs), 2),
         "known_findings_reported": [{"site": k["site"], "role": k["role"]} for k in out.known],
         "inconclusive": out.inconclusive,
         "engine": "Kani 0.68 (MIR->GOTO) + CBMC 6.11 (CaDiCaL) driven directly, --unwinding-assertions; "
